@@ -4,7 +4,8 @@
     as far as C11 depends on it:
       - [apply_rrdp_updated]        rrdp.rs 310-338
       - [deltas_truncate_size]      rrdp.rs 396-412
-      - [find_deltas_truncate_age]  rrdp.rs 422-455, including the [usize] subtraction [max_nr - 1]
+      - [find_deltas_truncate_age]  rrdp.rs 422-459 (count test [keep + 1 >= max_nr] since 5d8ba60d; the
+                                    earlier [keep == max_nr - 1] with its [usize] subtraction as [CountEq])
       - [update_rrdp]               rrdp.rs 373-388 (time, random, truncation point)
       - [reset_session] / [apply_session_reset]  rrdp.rs 262-281
       - [update_rrdp_if_needed]     manager.rs 221-238 with [rrdp_delta_interval_min_seconds = 0]
@@ -83,24 +84,42 @@ Definition usize_max : N := 18446744073709551615.
 Definition usize_pred (a : arith) (n : N) : option N :=
   if n =? 0 then match a with Wrapping => Some usize_max | Checked => None end else Some (n - 1).
 
+(** The count test of the loop. [CountGe] is the code of record (rrdp.rs 440, since commit
+    5d8ba60d: [keep + 1 >= max_nr], no subtraction); [CountEq] is the test before that commit
+    ([keep == max_nr - 1], with the [usize] subtraction), kept as a regression example: once a
+    protected delta had carried [keep] past [max_nr - 1] it never fired again (finding F11a),
+    and [max_nr = 0] overflowed (finding F11b). *)
+Inductive rrule : Type := CountEq | CountGe.
+Definition retention_rule : rrule := CountGe.
+
 (** The loop of [find_deltas_truncate_age], [keep] being the loop variable. [None] = the
-    subtraction [max_nr - 1] panicked. *)
-Fixpoint age_loop (a : arith) (c : cfg) (now : Z) (ds : list ddata) (keep : N) : option N :=
+    subtraction [max_nr - 1] panicked (only possible with [CountEq]). *)
+Fixpoint age_loop_v (v : rrule) (a : arith) (c : cfg) (now : Z) (ds : list ddata) (keep : N) : option N :=
   match ds with
   | [] => Some keep
   | d :: rest =>
       if (keep <? c_min_nr c) || younger_than now (c_min_secs c) d
-      then age_loop a c now rest (keep + 1)                                   (* 435-439 *)
-      else match usize_pred a (c_max_nr c) with
-           | None => None
-           | Some m =>
-               if (keep =? m) || older_than now (c_max_secs c) d
-               then Some keep                                                  (* 440-447 break *)
-               else age_loop a c now rest (keep + 1)                           (* 448-451 *)
+      then age_loop_v v a c now rest (keep + 1)                               (* 435-439 *)
+      else match v with
+           | CountEq =>
+               match usize_pred a (c_max_nr c) with
+               | None => None
+               | Some m =>
+                   if (keep =? m) || older_than now (c_max_secs c) d
+                   then Some keep
+                   else age_loop_v v a c now rest (keep + 1)
+               end
+           | CountGe =>
+               if (c_max_nr c <=? keep + 1) || older_than now (c_max_secs c) d
+               then Some keep                                                  (* 440-451 break *)
+               else age_loop_v v a c now rest (keep + 1)                       (* 452-455 *)
            end
   end.
-Definition find_deltas_truncate_age (a : arith) (c : cfg) (now : Z) (ds : list ddata) : option N :=
-  age_loop a c now ds 0.
+Definition find_deltas_truncate_age_v (v : rrule) (a : arith) (c : cfg) (now : Z) (ds : list ddata) : option N :=
+  age_loop_v v a c now ds 0.
+(** The code of record. (The [arith] argument no longer matters: [find_total] in RrdpProofs.v.) *)
+Definition find_deltas_truncate_age : arith -> cfg -> Z -> list ddata -> option N :=
+  find_deltas_truncate_age_v retention_rule.
 
 (** ** Retention by size (rrdp.rs 396-412). [sz] maps a content to [Base64::size_approx]. *)
 Definition elems_size (sz : N -> N) (l : list elem) : N :=
@@ -129,7 +148,8 @@ Definition apply_rrdp_updated (sz : N -> N) (u : updated) (r : rrdp) : rrdp :=
       (deltas_truncate_size sz (flat (st_snap st'))
          (d :: firstn (N.to_nat (u_truncate u)) (r_deltas r))).   (* truncate, push_front, truncate by size *)
 
-(** ** One request. [None] = the process panicked (only in [find_deltas_truncate_age]). *)
+(** ** One request. [None] = the process panicked (only in [find_deltas_truncate_age], and only
+    with the count test of before 5d8ba60d: [rstep_total] in RrdpProofs.v). *)
 Definition rstep (a : arith) (sz : N -> N) (r : rrdp) (o : op) (orc : oracle) : option rrdp :=
   match o with
   | OUpdate =>
@@ -227,8 +247,17 @@ Definition client_update (f : offer) (c : client) : client * how :=
     above it. *)
 Definition covers (r : rrdp) (s : N) : Prop := r_serial r - s <= N.of_nat (length (r_deltas r)).
 
-(** ** The property's retention clause at full strength (refuted: RrdpProofs.v) *)
-(** "the retained deltas never exceed the configured maximum number" *)
+(** ** The property's retention clause *)
+(** At full strength: "the retained deltas never exceed the configured maximum number". Refuted
+    also for the repaired rule (RrdpProofs.v): the configured minimums have priority. *)
 Definition retention_unconditional : Prop :=
   forall a sz r o orc r', RInv r -> rstep a sz r o orc = Some r' -> is_update o = true ->
     N.of_nat (length (r_deltas r')) <= c_max_nr (or_cfg orc) \/ r' = r.
+
+(** What is true of the code of record: every old delta kept at an index where the count would
+    exceed the maximum is protected by min_nr or min_seconds. As a property of a truncation
+    function, so that it can be stated of both count tests. *)
+Definition retention_explained (find : cfg -> Z -> list ddata -> option N) : Prop :=
+  forall c now ds k i x,
+    find c now ds = Some k -> nth_error ds i = Some x -> N.of_nat i < k -> c_max_nr c <= N.of_nat i + 1 ->
+    protected c now (N.of_nat i) x = true.
